@@ -169,7 +169,8 @@ PointRecord == LET Fs == Facets(W)  QQ == QPts
 CurvRecord == LET Fs == Facets(W) IN
     [mterm |-> MeanCurvatureTerm(Fs), steiner_volume |-> SteinerVolume, steiner_area |-> SteinerArea,
      steiner_curvature |-> SteinerCurvature, tau |-> TauTerm, asphericity |-> AsphericityTerm, iq |-> IqTerm,
-     balls |-> BallData(Fs, Tris)]
+     \* the ball data squares centroid-scaled coordinates: only for universes with small coordinates (32-bit integers)
+     balls |-> IF \A p \in W : \A k \in 1..3 : Abs(p[k]) <= 20 THEN BallData(Fs, Tris) ELSE [skipped |-> TRUE]]
 (* ---- exact distance to the polytope (C05, spheropolyhedra with a general convex core) ------------------ *)
 \* squared distance from a lattice point p to conv(W) as a rational <<num, den>>; 0 inside.  Outside, the nearest point
 \* lies in the relative interior of a face, of an edge, or is a vertex; each candidate below is an upper bound of the
